@@ -45,14 +45,15 @@ def mps_index(kind):
     tc = 'T0' if kind == 'number' else '(T0 + seg_time)'
     m0 = f'Mof({tc})'
     if kind == 'number':
-        ens = [('segment', f'result[0] == {m0} + (seg_num - sn) and result[2] == seg_num'),
+        ens = [('segment', f'result[0] == {m0} + (seg_num - sn) and result[2] == seg_num'), ('number_echo', 'result[2] == seg_num'),
                ('stored_segment', '1 <= result[0] and result[0] <= n')]
         gs = REPG.gsi(tc, '(result[0] - (seg_num - sn))', '(-result[1])',
                       '(-result[1] - S(result[0] - (seg_num - sn) - 1))')
         raises = {'ValueError': f'{m0} + (seg_num - sn) > n'}
         req_extra = [('region_number_not_before_start', 'seg_num >= sn')]
     else:
-        ens = [('segment', f'result[0] == {m0}'), ('stored_segment', '1 <= result[0] and result[0] <= n')]
+        ens = [('segment', f'result[0] == {m0}'), ('stored_segment', '1 <= result[0] and result[0] <= n'),
+               ('number_echo', 'is_none(result[2])')]
         gs = REPG.gsi(tc, 'result[0]', '(seg_time - result[1])', '(seg_time - result[1] - S(result[0] - 1))')
         raises = {}
         req_extra = [('time_nonneg', 'seg_time >= 0')]
@@ -71,6 +72,52 @@ def mps_index(kind):
 
 
 MPS_INDEX = [mps_index('number'), mps_index('time')]
+for _c in MPS_INDEX:
+    _c.applies = (lambda k: lambda fr: (fr['seg_time'] is None) if k == 'number' else (fr['seg_num'] is None))(_c.variant)
+    # the third component is the seg_num argument handed back unchanged (None for a $Time$ request) - see `number_echo`
+    _c.result = lambda eng, frame: (fresh('mod_segment'), fresh('origin_time'), frame['seg_num'])
+
+
+# ----------------------------------------------------------------------------- the media-segment handler, period flavour
+def mps_gms(kind, content_type):
+    """MediaRequestBase.generate_media_segment with self a ServeMpsMedia: checked against the contract of
+    ServeMpsMedia.calculate_media_segment_index at its call site (see contracts/rep.py for the observables)"""
+    callee = next(c for c in MPS_INDEX if c.variant == kind)
+    origin = '(result.data.tfdt - TF(served_mod))'
+
+    def env(w):
+        rep = REPG.rep_obj(w, 'vod')
+        rep.f['encrypted'] = False
+        return {'self': Obj('ServeMpsMedia', {}), 'stream': Obj('Stream', {'timing_reference': REPG.ref_obj(w)}),
+                'media_file': Obj('MediaFile', {'representation': rep, 'content_type': content_type, 'track_id': w['track_id'],
+                                                'name': Opaque('name'), 'codec_fourcc': Opaque('fourcc')}),
+                'mode': 'vod',
+                'options': Obj('OptionsContainer', {'mode': 'vod', 'segmentTimeline': kind == 'time', 'videoCorruption': None}),
+                'seg_num': z3.Int('seg_num') if kind == 'number' else None,
+                'seg_time': z3.Int('seg_time') if kind == 'time' else None}
+    subst = lambda t: t.replace('result[1]', origin).replace('result[0]', 'served_mod').replace('result[2]', 'result.data.sequence_number')
+    served = [(lab, subst(t)) for lab, t in callee.ensures if lab != 'number_echo'] + [('no_sidx', 'not result.data.has_sidx')]
+    if kind == 'number':
+        status = [('refused', f"(result.status == 404) == ({callee.raises['ValueError']})")]
+    else:
+        status = [('never_refused', 'result.status == 200')]
+        served.append(('served_number_from_callee', 'True'))
+    return Contract(
+        key=f'{MRQ}:MediaRequestBase.generate_media_segment', variant=f'mps-{kind}-{content_type}',
+        props=['C12', 'C16'], env=env,
+        requires=list(callee.requires), defs=list(callee.defs),
+        models=REPG.gms_models(True),
+        ctors={'AdaptationSet': lambda eng, a, kw: Obj('AdaptationSet', {'content_type': kw['content_type'],
+                                                                         'representations': PyList([])}),
+               'DashTiming': lambda eng, a, kw: Opaque('timing')},
+        ensures=[('status', 'result.status == 404 or result.status == 200')] + status +
+                [(lab, f'True if result.status == 404 else ({t})') for lab, t in served],
+        canaries=['result.status == 404'],
+        witness_terms=callee.witness_terms,
+    )
+
+
+MPS_GMS = [mps_gms('number', 'video'), mps_gms('number', 'audio')]      # $Time$ requests: known finding C12-mps-time-request-asserts
 
 
 def lemma_mps_decode_times(w):
@@ -205,7 +252,7 @@ LIVE_PERIODS = Contract(
 
 
 GROUP = Group(
-    name='mps', world=world, contracts=MPS_INDEX + [VOD_PERIODS, LIVE_PERIODS],
+    name='mps', world=world, contracts=MPS_INDEX + [VOD_PERIODS, LIVE_PERIODS] + MPS_GMS,
     lemmas=[Lemma('mps_decode_times', ['C12'], lemma_mps_decode_times)],
     assumptions=[
         'C12: create_period returns a Period whose duration is the stored duration of the definition it was given; '
